@@ -420,15 +420,37 @@ type Branch struct {
 	Target string `json:"target,omitempty" yaml:",omitempty"`
 }
 
-// Copy makes a shallow copy of the Branch.
+// Copy makes a copy of the Branch that shares only the compiled
+// Guard with the original.
 func (b *Branch) Copy() *Branch {
 	if b == nil {
 		return nil
 	}
 	return &Branch{
-		Pattern:     b.Pattern,
+		Pattern:     copyPattern(b.Pattern),
 		Guard:       b.Guard,
-		GuardSource: b.GuardSource,
+		GuardSource: b.GuardSource.Copy(),
 		Target:      b.Target,
+	}
+}
+
+// copyPattern makes a deep copy of the maps and arrays of a pattern
+// (so that editing a copy of a spec doesn't change the original).
+func copyPattern(x interface{}) interface{} {
+	switch vv := x.(type) {
+	case map[string]interface{}:
+		acc := make(map[string]interface{}, len(vv))
+		for k, v := range vv {
+			acc[k] = copyPattern(v)
+		}
+		return acc
+	case []interface{}:
+		acc := make([]interface{}, len(vv))
+		for i, v := range vv {
+			acc[i] = copyPattern(v)
+		}
+		return acc
+	default:
+		return x
 	}
 }
